@@ -193,11 +193,21 @@ func StartSession(cfg TableCfg, r *rand.Rand, onEvent func(e *Ev)) (*Session, er
 
 // StartSessionJ is StartSession with callback jitter (see SimConfig.Jitter).
 func StartSessionJ(cfg TableCfg, r *rand.Rand, onEvent func(e *Ev), jitter float64, jmax time.Duration) (*Session, error) {
+	return StartSessionWith(cfg, r, onEvent, func(sc *SimConfig) { sc.Jitter, sc.JitterMax = jitter, jmax })
+}
+
+// StartSessionWith is StartSession with a hook that may adjust the driver's configuration (jitter, a synchronous
+// subscriber, ...) before the engine is created.
+func StartSessionWith(cfg TableCfg, r *rand.Rand, onEvent func(e *Ev), mod func(sc *SimConfig)) (*Session, error) {
 	rig := NewRigBackend()
 	rig.DeckFn = SeededDeck(rand.New(rand.NewSource(r.Int63())))
 	ss := &Session{Rig: rig, Cfg: cfg, OnEvent: onEvent, NextID: len(cfg.Players)}
 	mtt := cfg.Mode == "mtt"
-	s, err := NewSim(SimConfig{Setting: cfg.Setting(mtt), Interval: cfg.Interval, Backend: rig, Jitter: jitter, JitterMax: jmax}, r.Int63())
+	simCfg := SimConfig{Setting: cfg.Setting(mtt), Interval: cfg.Interval, Backend: rig}
+	if mod != nil {
+		mod(&simCfg)
+	}
+	s, err := NewSim(simCfg, r.Int63())
 	ss.S = s
 	if err != nil {
 		return ss, err
